@@ -1,3 +1,4 @@
 import TinyFlux.Audit.Tool
 import TinyFlux.Props.C17
+import TinyFlux.Props.C17State
 #audit TinyFlux.Props.C17
